@@ -6,6 +6,8 @@ let fcfg = ref { fc_base = { c_kind = KHost; c_max = z_of_int 3; c_volatile = fa
                  fc_flap_enabled = false; fc_flap_high = z_of_int 3005; fc_flap_low = z_of_int 2505;
                  fc_active_checks = false; fc_check_interval = z_of_int 300 }
 let fst_ = ref init_full
+(* C05: the clean-up timers of the downtimes (Ck/CkDtTimer.v); printed only under the opt-in obs class "tm" *)
+let tms_ : c5_tm list ref = ref []
 
 let sstate_of_int = function 0 -> SOK | 1 -> SWarning | 2 -> SCritical | _ -> SUnknown
 let sstate_num = function SOK -> 0 | SWarning -> 1 | SCritical -> 2 | SUnknown -> 3
@@ -38,7 +40,10 @@ let full_line (f : full) outs =
   let cs = List.sort compare (List.map (fun c -> Printf.sprintf "%s/%d/%s" (zs c.cm_entry) (if c.cm_persistent then 1 else 0) (zs c.cm_expire)) f.f_comments) in
   Buffer.add_string b " cms=";
   if cs = [] then Buffer.add_string b "-" else Buffer.add_string b (String.concat "," cs);
-  let toks = List.sort compare (List.filter_map out_tok outs) in
+  let tmtoks = if ev_on "tm" then
+      List.map (fun t -> Printf.sprintf "tm=%s:%d:%s:%d" (zs t.tm_id) (if t.tm_armed then 1 else 0) (zs t.tm_due)
+                           (if t.tm_paused then 1 else 0)) !tms_ else [] in
+  let toks = List.sort compare (tmtoks @ List.filter_map out_tok outs) in
   List.iter (fun t ->
     let pfx = match String.index_opt t '=' with Some i -> String.sub t 0 i | None -> t in
     if ev_on pfx then (Buffer.add_char b ' '; Buffer.add_string b t)) toks;
@@ -47,9 +52,23 @@ let full_line (f : full) outs =
 (* every operation goes through CkAck.cka_step (= full_step for the operations of CkFull, plus the cluster
    entry points for acknowledgements, script syntax: ack via=cluster ... / unack via=cluster) *)
 let apply name o =
-  let (f', outs) = cka_step !fcfg (z_of_int !now) !fst_ o in
-  fst_ := f';
-  emit (name ^ " " ^ full_line f' outs)
+  match o with
+  | CkaBase bo ->
+    (* C05 timer layer: c5_tstep = full_step, except that the clean-up handler runs only if its timer is armed and due,
+       and it keeps the timer table *)
+    let (ts', outs) = c5_tstep !fcfg (z_of_int !now) { ts_f = !fst_; ts_tms = !tms_ } (XOp bo) in
+    fst_ := ts'.ts_f; tms_ := ts'.ts_tms;
+    emit (name ^ " " ^ full_line ts'.ts_f outs)
+  | _ ->
+    let (f', outs) = cka_step !fcfg (z_of_int !now) !fst_ o in
+    fst_ := f';
+    emit (name ^ " " ^ full_line f' outs)
+
+let op_dt_pause a =
+  let id = z_of_int (num a "id" 0) and p = num a "p" 0 <> 0 in
+  let (ts', outs) = c5_tstep !fcfg (z_of_int !now) { ts_f = !fst_; ts_tms = !tms_ } (XDtPause (id, p)) in
+  fst_ := ts'.ts_f; tms_ := ts'.ts_tms;
+  emit ("dt_pause " ^ full_line ts'.ts_f outs)
 
 let parse_op name (a : args) : op option =
   let b k = num a k 0 <> 0 in
@@ -80,7 +99,7 @@ let op_ckf_new a =
                         c_max = z_of_int (num a "max" 3); c_volatile = (num a "vol" 0 <> 0) };
             fc_flap_enabled = (num a "flap" 0 <> 0); fc_flap_high = z_of_int 3005; fc_flap_low = z_of_int 2505;
             fc_active_checks = (num a "active" 0 <> 0); fc_check_interval = z_of_int (num a "ci" 300) };
-  fst_ := init_full
+  fst_ := init_full; tms_ := []
 
 let cka_of name a : cka_op option =
   let b k = num a k 0 <> 0 in
@@ -102,5 +121,6 @@ let op_ackread _ =
 let () =
   register_op "ckf_new" op_ckf_new;
   register_op "ackread" op_ackread;
+  register_op "dt_pause" op_dt_pause;
   List.iter (fun n -> register_op n (fun a -> match cka_of n a with Some o -> apply n o | None -> ()))
     ["crf"; "parent"; "ack"; "unack"; "cmtimer"; "dt_add"; "dt_remove"; "dt_starttimer"; "dt_cleanup"; "fire"; "pause"; "nextcheck"]
